@@ -545,7 +545,7 @@ def fam_mut(tier, rng):
     """P-mut: random byte / bit mutations, insertions and deletions of P-gram objects"""
     ops = []
     shapes = gram_shapes("quick")
-    n = 1500 if tier == "quick" else 20000
+    n = 6000 if tier == "quick" else 40000
     for i in range(n):
         tx = shapes[rng.randrange(len(shapes))]
         b = bytearray(tx.enc())
@@ -652,7 +652,7 @@ def cache_value(tag, n):
 def fam_krand(tier, rng):
     """K-rand: random cache histories; capacities 0..4096, four size distributions, key reuse present/evicted/fresh"""
     ops = []
-    n_hist = 150 if tier == "quick" else 2000
+    n_hist = 600 if tier == "quick" else 3000
     for h in range(n_hist):
         cap = rng.choice((0, 1, 2, 3, 5, 8, 10, 16, 33, 64, 100, 257, 1000, 4096))
         dist = rng.choice(("tiny", "zero", "near", "mixed"))
